@@ -362,10 +362,25 @@ func (ms *Modules) Process() []error {
 		return errorSort(errs)
 	}
 
+	// The maps are walked in random order. Convert the modules and apply
+	// their augments in a fixed order, so that the outcome (which grouping
+	// of a cycle is reported, the winner of conflicting augments and the
+	// wording of the error about them) does not change from run to run.
+	all := make([]*Module, 0, len(ms.Modules)+len(ms.SubModules))
 	for _, m := range ms.Modules {
-		errs = append(errs, ToEntry(m).GetErrors()...)
+		all = append(all, m)
 	}
 	for _, m := range ms.SubModules {
+		all = append(all, m)
+	}
+	sort.SliceStable(all, func(i, j int) bool {
+		if all[i].Kind() != all[j].Kind() {
+			return all[i].Kind() < all[j].Kind()
+		}
+		return all[i].FullName() < all[j].FullName()
+	})
+
+	for _, m := range all {
 		errs = append(errs, ToEntry(m).GetErrors()...)
 	}
 
@@ -376,23 +391,7 @@ func (ms *Modules) Process() []error {
 	// Now handle all the augments.  We don't have a good way to know
 	// what order to process them in, so repeat until no progress is made
 
-	mods := make([]*Module, 0, len(ms.Modules)+len(ms.SubModules))
-	for _, m := range ms.Modules {
-		mods = append(mods, m)
-	}
-	for _, m := range ms.SubModules {
-		mods = append(mods, m)
-	}
-	// The maps are walked in random order. Apply the augments of the
-	// modules in a fixed order, so that the outcome of conflicting augments
-	// (and the wording of the error about them) does not change from run to
-	// run.
-	sort.SliceStable(mods, func(i, j int) bool {
-		if mods[i].Kind() != mods[j].Kind() {
-			return mods[i].Kind() < mods[j].Kind()
-		}
-		return mods[i].FullName() < mods[j].FullName()
-	})
+	mods := append([]*Module(nil), all...)
 	for len(mods) > 0 {
 		var processed int
 		for i := 0; i < len(mods); {
@@ -413,10 +412,7 @@ func (ms *Modules) Process() []error {
 
 	// Now fix up all the choice statements to add in the missing case
 	// statements.
-	for _, m := range ms.Modules {
-		ToEntry(m).FixChoice()
-	}
-	for _, m := range ms.SubModules {
+	for _, m := range all {
 		ToEntry(m).FixChoice()
 	}
 
@@ -428,10 +424,7 @@ func (ms *Modules) Process() []error {
 	// Applying an augment can itself fail (the target may already have a
 	// child of that name); such errors are recorded on the target, which
 	// may be in any module.
-	for _, m := range ms.Modules {
-		errs = append(errs, ToEntry(m).GetErrors()...)
-	}
-	for _, m := range ms.SubModules {
+	for _, m := range all {
 		errs = append(errs, ToEntry(m).GetErrors()...)
 	}
 
